@@ -213,6 +213,39 @@ def run(res: C.Result):
                 res.fail("log:second-file", f"a Logger re-pointed to a second file ({variant}): file {key!r} holds {len(lines) - 1} lines, first line {lines[0][:40]!r}; expected the header "
                          f"{head[:40]!r} plus {o[f'rows_{key}']} rows", {"input": cc, "observed": o[key][:400]})
     dist["logger_reuse_cases"] = nre
+    # ---- observers used by hand: the restart observer called again at a step it has already written (settings changed in between; named checkpoint);
+    #      log columns dropped mid-run followed by a new header
+    nman = 0
+    for vi in range(2 if quick else 8):
+        for variant in ("manual_restart", "remove_fields"):
+            cc = {"dir": str(root / f"manual{vi}_{variant}"), "variant": variant, "seed": rng.randint(1, 10 ** 6), "steps1": rng.randint(1, 4), "steps2": rng.randint(1, 4),
+                  "extra": vi % 2 == 0, "which": ["last", "second"][vi % 2]}
+            p2 = subprocess.run([C.PY, "-W", "ignore", str(C.VERIF / "harness" / "impl" / "c16b.py")], input=json.dumps(cc), capture_output=True, text=True, env=C.IMPL_ENV, timeout=600, cwd="/")
+            nman += 1
+            if p2.returncode != 0:
+                res.fail(f"exception:{variant}", f"{variant}: {p2.stderr[-400:]}", {"input": cc})
+                continue
+            o = json.loads(p2.stdout)
+            if variant == "manual_restart":
+                for what, T, doc in o["docs"]:
+                    if doc.get("error") or doc.get("temperature") != T or doc.get("step_count") != o["expected_step"]:
+                        res.fail("restart:not-the-latest-state", f"restart observer, {what}: the file should hold one JSON document with temperature {T} at step {o['expected_step']}; "
+                                 f"it holds {doc}", {"input": cc, "observed": doc})
+                        break
+            else:
+                lines = o["a"].split("\n")[:-1]
+                heads = [i for i, l in enumerate(lines) if l.split()[:1] == ["Class"]]
+                bad = None
+                if len(heads) != 2 or len(lines) != 2 + (o["steps1"] + 1) + o["steps2"] or not o["a"].endswith("\n"):
+                    bad = f"{len(lines)} lines with {len(heads)} header(s); expected a header, {o['steps1'] + 1} lines, the new header, {o['steps2']} lines"
+                else:
+                    ncol = len(lines[heads[1]].split())
+                    wrong = [l for l in lines[heads[1] + 1:] if len(l.split()) != ncol]
+                    if wrong or o["removed"] in lines[heads[1]]:
+                        bad = f"after remove_fields({o['removed']!r}) and write_header() the header has {ncol} columns ({lines[heads[1]].split()}), but a later line reads {wrong[:1] or lines[heads[1]]}"
+                if bad:
+                    res.fail("log:columns-after-remove-fields", bad, {"input": cc, "observed": o["a"][-600:]})
+    dist["observers_used_by_hand"] = nman
     # ---- evaluate the model
     got = {}
     per = 120
